@@ -88,6 +88,8 @@ theorem retrap_ite (t : Cond) (p : Prop) [Decidable p] (a b : Out) :
     setExponent (wt c t) d res xs = setExponent c d res xs := rfl
 @[simp] theorem roundX_wt (c : Ctx) (t : Cond) (x : Dec) (b : Bool) : roundX (wt c t) x b = roundX c x b := rfl
 @[simp] theorem ctxRound_wt (c : Ctx) (t : Cond) (x : Dec) : ctxRound (wt c t) x = ctxRound c x := rfl
+@[simp] theorem roundXFin_wt (c : Ctx) (t : Cond) (x : Dec) (b : Bool) : roundXFin (wt c t) x b = roundXFin c x b := rfl
+@[simp] theorem ctxRoundFin_wt (c : Ctx) (t : Cond) (x : Dec) : ctxRoundFin (wt c t) x = ctxRoundFin c x := rfl
 @[simp] theorem quantizeCore_wt (c : Ctx) (t : Cond) (v : Dec) (e : Int) :
     quantizeCore (wt c t) v e = quantizeCore c v e := rfl
 
@@ -373,7 +375,7 @@ def sqrtCore (c : Ctx) (x : Dec) : ED × Dec :=
   let workp := if workp < nd then nd else workp
   let workp := if workp < 7 then 7 else workp
   let e0 : Int := (nd : Int) + x.exp
-  let nc : Ctx := { c with prec := workp, mode := .halfEven }
+  let nc : Ctx := { c with prec := workp, mode := .halfEven, emin := MinExponent, emax := MaxExponent }
   let ed : ED := { c := nc }
   let even := (Int.tmod e0 2 == 0)
   let f : Dec := { x with exp := if even then -(nd : Int) else -(nd : Int) - 1 }
